@@ -325,8 +325,11 @@ def _sig_features(kinds_present):
 
 
 def gen(ctx):
-    full = ctx.thorough
-    sigs = signatures(4 if full else 3)
+    deep = ctx.thorough
+    sigs = signatures(4)
+    if deep:
+        five = [s for s in signatures(5) if len(s) == 5]
+        sigs = sigs + ctx.rng.sample(five, min(len(five), 2500))
     for sig in sigs:
         n = len(sig)
         # (context position, mode)
